@@ -498,8 +498,11 @@ pub fn start_server(config: &Config, addr: &crate::net::SocketAddr) -> Result<()
                 trace!("binding unix socket {}", path.display());
                 // A stale socket file has to be unlinked before binding, which would just
                 // as well unlink the socket of a live server. Hold an exclusive lock next
-                // to the socket for as long as this server runs, so that only one server
-                // ever owns the path; the others report AddrInUse like a taken TCP port.
+                // to the socket for as long as this server listens, so that only one server
+                // ever owns the path; the others report AddrInUse like a taken TCP port. The
+                // lock goes away together with the listener (not with the process): while a
+                // stopped server finishes its in-flight requests a new one can take the path
+                // over, as it can take over a TCP port.
                 let lock = crate::net::lock_unix_socket_path(path)?;
                 // Unix socket will report addr in use on any unlink file.
                 let _ = std::fs::remove_file(path);
@@ -507,14 +510,12 @@ pub fn start_server(config: &Config, addr: &crate::net::SocketAddr) -> Result<()
                     let _guard = runtime.enter();
                     tokio::net::UnixListener::bind(path)?
                 };
+                let l = crate::net::LockedUnixListener::new(l, lock);
                 let srv =
                     SccacheServer::<_>::with_listener(l, runtime, client, dist_client, storage);
                 Ok((
                     srv.local_addr().unwrap(),
-                    Box::new(move |f| {
-                        let _lock = lock;
-                        srv.run(f)
-                    }) as Box<dyn FnOnce(_) -> _>,
+                    Box::new(move |f| srv.run(f)) as Box<dyn FnOnce(_) -> _>,
                 ))
             }
             #[cfg(any(target_os = "linux", target_os = "android"))]
